@@ -460,13 +460,16 @@ scanclose(void)
 void
 scan(struct token *t)
 {
+	struct scanner *next;
+
 	scanner->sawspace = false;
 	for (;;) {
 		t->kind = scankind(scanner, &t->loc);
 		if (t->kind != TEOF || !scanner->next)
 			break;
+		next = scanner->next;
 		scanclose();
-		scanner = scanner->next;
+		scanner = next;
 		scanopen();
 	}
 	if (scanner->usebuf) {
